@@ -62,7 +62,7 @@ ob('trees::l0_tree_reserve_or_steal', ['C13', 'C15', 'C09'], ['trees::Tree::rese
 ob('trees::l0_tree_put', ['C09', 'C04'], ['trees::Tree::put'], bound=L0_TREE)
 ob('trees::l0_tree_unreserve_add', ['C09', 'C04'], ['trees::Tree::unreserve_add'], bound=L0_TREE)
 ob('trees::l0_tree_sync_steal', ['C11'], ['trees::Tree::sync_steal'], bound=L0_TREE)
-ob('trees::l0_tree_change', ['C15'], ['trees::Tree::change'], bound=L0_TREE)
+ob('trees::l0_tree_change', ['C15', 'C04', 'C09'], ['trees::Tree::change'], bound=L0_TREE)
 
 L0_LOCAL = 'all 2^64 slot words (present => free <= TREE_FRAMES), all tree ids, all n'
 ob('local::l0_local_with_none', ['C09'], ['local::LocalTree::with', 'local::LocalTree::none'], bound=L0_LOCAL)
@@ -295,12 +295,12 @@ for th, feat in ((1, 'tree_huge_1'), (2, 'tree_huge_2'), (8, 'tree_huge_8')):
 # ------------------------------------------------------------------------------------------------
 # Locals slot-level contracts; C10 / C11 completeness (modular, contract C0)
 # ------------------------------------------------------------------------------------------------
-ob('local::l1b_locals_steal_any', ['C09', 'C13', 'C18'], ['local::Locals::steal_any', 'local::Locals::get'], kind='config-bounded', timeout=1500,
+ob('local::l1b_locals_steal_any', ['C09', 'C13'], ['local::Locals::steal_any', 'local::Locals::get'], kind='config-bounded', timeout=1500,
    bound='classes 0,1,2 with (1,1,0) slots (one class WITHOUT slots), any slot words, every kind-policy, any requester / index / tree / amount', cover=False)
 ob('local::l1b_locals_steal_any_2_1_0', ['C09', 'C13', 'C18'], ['local::Locals::steal_any'], tier='thorough', kind='config-bounded', timeout=1500,
    bound='classes with (2,1,0) slots (different slot counts), any slot words', cover=False)
 ob('local::l1b_locals_demote_any', ['C09', 'C13', 'C18'], ['local::Locals::demote_any'], tier='thorough', kind='config-bounded', timeout=1500, bound='classes with (1,1,0) slots', cover=False)
-ob('local::l1b_locals_demote_any_0_1_2', ['C09', 'C13', 'C18'], ['local::Locals::demote_any'], kind='config-bounded', timeout=1500, bound='classes with (0,1,2) slots (requesting class may have no slots)', cover=False)
+ob('local::l1b_locals_demote_any_0_1_2', ['C09'], ['local::Locals::demote_any'], kind='config-bounded', timeout=1500, bound='classes with (0,1,2) slots (requesting class may have no slots)', cover=False)
 ob('local::l1b_locals_get_put_swap', ['C09', 'C04', 'C18'], ['local::Locals::get', 'local::Locals::put'], kind='config-bounded', bound='classes with (1,2,0) slots, any slot words', cover=False)
 C0_ASSUMES = G_ASSUMES + ['contract C0 of the inner helpers (each checked by its own c0_* obligation)',
                           'trees::Trees::search_best visits every acceptable tree (c16_search_best_n*, l1b_search_best_result_n3; tree array not longer than the smallest buffer)']
@@ -332,3 +332,5 @@ COVER_ON = COVER_ON + ('c17_nvm_',)
 for _o in OBS:
     if _o['harness'].startswith('c17_nvm_'):
         _o['cover'] = True
+ob('lower::l1b_lower_new_dispatch', ['C05', 'C06', 'C08', 'C18'], ['lower::Lower::new'], bound='frames = 600 (2 bitfields, 1 table), every init mode, every buffer length <= 512', cover=False,
+   assumes=['lower::Lower::free_all / reserve_all / recover by recording stubs (their contracts: c06_*, c05_recover_*)'])
